@@ -10,6 +10,10 @@ def run(ctx):
     vlib.absorb(ctx, rep, "control-cover")
     t = system.record(ctx, "shutdown", test="TestVerifShutdown")
     system.validate(ctx, t, ["TrLife"], "Stop and Register racing real shutdowns")
+    if vlib.have_strace():
+        # an engine that ended by itself (accept failing for good) must report the shutdown through its handle as well
+        tf = system.record(ctx, "accept-fatal", test="TestVerifFaults", env={"VERIF_FAULT_SET": "fatal"})
+        system.validate(ctx, tf, ["TrLife"], "engine ended by a fatal accept error")
     # the engine model: inShutdown (what Stop polls) is only set after every loop has exited, every connection was
     # closed and the listeners are gone; the recorded shutdowns must be behaviours of that model
     system.engine_design(ctx)
